@@ -277,6 +277,13 @@ func init() {
 		e.schedPoint(e.concStr(a[0], "sched label"))
 		return nil
 	})
+	// verifHook: scheduling points the source instrumentation inserts into library packages (replay.go)
+	api("verifHook", func(e *Engine, a []value) value {
+		if e.params["blob_lock_sched"] != 0 {
+			e.schedPoint(e.concStr(a[0], "hook label"))
+		}
+		return nil
+	})
 	api("verifSymbolic", func(e *Engine, a []value) value { return true })
 	api("verifPrint", func(e *Engine, a []value) value {
 		fmt.Printf("  PRINT %v %v\n", a[0], fmtVal(a[1]))
